@@ -574,6 +574,44 @@ func c07Scenarios() []c07Scenario {
 	}})
 	// (a Suicide racing with writes is retention, which is outside this property's quantifier)
 
+	// ---- H9: the seal hand-over releases the caches of the active fraction while the cache cleaner runs its passes
+	// under pressure (tiny budget: generations rotate and are evicted); afterwards everything is served.
+	res = append(res, c07Scenario{"H9 seal hand-over (cache release) + cleaner passes (tiny cache)", func() (*c07World, []func(), func()) {
+		w := newC07World()
+		ai := frac.VerifNewIndexer(16)
+		fp := newFP(ai, 4*consts.KB)
+		pf := fp.newActiveRef(fp.NewActive(w.dir + "/seq-db-H9")).frac
+		w.cleanup = append(w.cleanup, pf.Suicide)
+		docs := c07Bulk(0, 1, 2, 3)
+		w.submit(docs)
+		d0, m0 := vfrac.BuildBulk(docs, 1)
+		if err := pf.Append(d0, m0); err != nil {
+			panic(err)
+		}
+		for ai.VerifProcessOne() {
+		}
+		w.acked = docs
+		get := func() List { return List{pf} }
+		// the active fraction's caches hold something before the race starts
+		w.readerPass("warm-up", directSearch(pf), directFetch(pf))
+		cm := fp.cacheProvider
+		bodies := []func(){
+			func() {
+				if _, err := pf.Seal(frac.SealParams{IDsZstdLevel: 1, LIDsZstdLevel: 1, TokenListZstdLevel: 1, DocsPositionsZstdLevel: 1, TokenTableZstdLevel: 1, DocBlocksZstdLevel: 1}); err != nil {
+					w.fail("seal error: %v", err)
+				}
+			},
+			func() {
+				for i := 0; i < 2; i++ {
+					cm.rotate()
+					cm.cleanup()
+					cm.garbageCollection()
+				}
+			},
+		}
+		return w, bodies, func() { w.finalCheck(listSearch(get, 1), listFetch(get), true) }
+	}})
+
 	// ---- H7: retention deletes a sealed fraction under a reader. Deletion is not in the property's list of
 	// interleaved operations, so what the readers SEE is not judged (a returned ID may fetch as empty) — but the
 	// "no panic, deadlock or error" clause is, for requests that go through the fraction's data provider (which is
